@@ -181,6 +181,19 @@ func (e *ProtoFailLeaf) Marshal() ([]byte, error) {
 	return nil, goErrNew("ProtoFailLeaf cannot be marshalled")
 }
 
+// SilentSafeLeaf: a third-party SafeFormatter whose SafeFormatError prints only a (safe) detail in
+// verbose mode and nothing at all in short mode, while Error() carries the (unsafe) message.
+type SilentSafeLeaf struct{ Msg string }
+
+func (e *SilentSafeLeaf) Error() string                 { return e.Msg }
+func (e *SilentSafeLeaf) Format(s fmt.State, verb rune) { errors.FormatError(e, s, verb) }
+func (e *SilentSafeLeaf) SafeFormatError(p errors.Printer) error {
+	if p.Detail() {
+		p.Printf("silent safe detail")
+	}
+	return nil
+}
+
 // PanicLeaf: Error() panics (never part of a generated tree: a hostile Is reference).
 type PanicLeaf struct{}
 
